@@ -379,10 +379,16 @@ func (s *summarizer) build(v ssa.Value) *Term {
 		}
 		return typed(tSym(fmt.Sprintf("P%d", s.paramIndex(x))), x.Type())
 	case *ssa.FreeVar:
-		for i, fv := range s.f.FreeVars {
+		// captured variables are named by their type and their rank among the captured variables of that type,
+		// so that the order in which a literal captures them does not matter
+		ty := shortType(derefType(x.Type()))
+		rank := 0
+		for _, fv := range s.f.FreeVars {
 			if fv == x {
-				// captured variables are addresses of the enclosing function's locals: name them by order
-				return typed(tSym(fmt.Sprintf("FV%d", i)), derefType(x.Type()))
+				return typed(tSym(fmt.Sprintf("FV:%s#%d", ty, rank)), derefType(x.Type()))
+			}
+			if shortType(derefType(fv.Type())) == ty {
+				rank++
 			}
 		}
 	case *ssa.Global:
@@ -400,9 +406,14 @@ func (s *summarizer) build(v ssa.Value) *Term {
 	case *ssa.MakeClosure:
 		fn, _ := x.Fn.(*ssa.Function)
 		var args []*Term
-		for _, b := range x.Bindings {
-			args = append(args, s.term(b))
+		for i, b := range x.Bindings {
+			ty := "?"
+			if fn != nil && i < len(fn.FreeVars) {
+				ty = shortType(derefType(fn.FreeVars[i].Type()))
+			}
+			args = append(args, &Term{Op: "bind", Val: ty, Args: []*Term{s.term(b)}})
 		}
+		sort.SliceStable(args, func(i, j int) bool { return args[i].Val < args[j].Val })
 		return &Term{Op: "call", Val: fmt.Sprintf("closure#%d", s.ord.closOrd(fn)), Args: args}
 	case *ssa.MakeInterface:
 		return s.term(x.X)
@@ -441,7 +452,11 @@ func (s *summarizer) build(v ssa.Value) *Term {
 			}
 			return s.term(v)
 		}
-		return &Term{Op: "slice", Args: []*Term{s.term(x.X), opt(x.Low), opt(x.High), opt(x.Max)}}
+		low := opt(x.Low)
+		if x.Low == nil {
+			low = tConstInt(0)
+		}
+		return &Term{Op: "slice", Args: []*Term{s.term(x.X), low, opt(x.High), opt(x.Max)}}
 	case *ssa.TypeAssert:
 		t := &Term{Op: "assert", Val: shortType(x.AssertedType), Args: []*Term{s.term(x.X)}}
 		if x.CommaOk {
@@ -604,8 +619,7 @@ type allocStore struct {
 // the allocation's block, before any other use) and late ones; escapes = address passed to a call
 // or stored somewhere.
 func (s *summarizer) allocStores(a *ssa.Alloc) (init, late []allocStore, escapes bool) {
-	refs := a.Referrers()
-	if refs == nil {
+	if a.Referrers() == nil {
 		return
 	}
 	type use struct {
@@ -613,54 +627,56 @@ func (s *summarizer) allocStores(a *ssa.Alloc) (init, late []allocStore, escapes
 		store *allocStore
 	}
 	var uses []use
-	for _, r := range *refs {
-		switch x := r.(type) {
-		case *ssa.Store:
-			if x.Addr == a {
-				uses = append(uses, use{r, &allocStore{x, ""}})
-			} else {
-				escapes = true // the address itself is stored
+	// walk the address computations derived from the allocation (nested fields, constant indices)
+	var walk func(addr ssa.Value, path string, depth int)
+	walk = func(addr ssa.Value, path string, depth int) {
+		if addr.Referrers() == nil || depth > 6 {
+			return
+		}
+		for _, r := range *addr.Referrers() {
+			switch x := r.(type) {
+			case *ssa.Store:
+				if x.Addr == addr {
+					uses = append(uses, use{r, &allocStore{x, path}})
+				} else {
+					escapes = true // the address itself is stored somewhere
+					uses = append(uses, use{r, nil})
+				}
+			case *ssa.FieldAddr:
+				if x.X == addr {
+					sub := fieldName(addr.Type(), x.Field)
+					if path != "" {
+						sub = path + "." + sub
+					}
+					walk(x, sub, depth+1)
+				}
+			case *ssa.IndexAddr:
+				if x.X == addr {
+					if k, ok := x.Index.(*ssa.Const); ok && k.Value != nil {
+						walk(x, path+"["+k.Value.ExactString()+"]", depth+1)
+					} else {
+						// variable index: stores through it are late stores into an unknown element
+						if x.Referrers() != nil {
+							for _, rr := range *x.Referrers() {
+								if st, ok := rr.(*ssa.Store); ok && st.Addr == x {
+									uses = append(uses, use{rr, &allocStore{st, path + "[?]"}})
+								} else {
+									uses = append(uses, use{rr, nil})
+								}
+							}
+						}
+					}
+				}
+			case ssa.CallInstruction:
+				escapes = true
+				uses = append(uses, use{r, nil})
+			case *ssa.DebugRef:
+			default:
 				uses = append(uses, use{r, nil})
 			}
-		case *ssa.FieldAddr:
-			name := fieldName(a.Type(), x.Field)
-			onlyStores := true
-			if x.Referrers() != nil {
-				for _, rr := range *x.Referrers() {
-					if st, ok := rr.(*ssa.Store); ok && st.Addr == x {
-						uses = append(uses, use{rr, &allocStore{st, name}})
-					} else {
-						onlyStores = false
-						if _, isCall := rr.(ssa.CallInstruction); isCall {
-							escapes = true
-						}
-						uses = append(uses, use{rr, nil})
-					}
-				}
-			}
-			_ = onlyStores
-		case *ssa.IndexAddr:
-			if x.Referrers() != nil {
-				for _, rr := range *x.Referrers() {
-					if st, ok := rr.(*ssa.Store); ok && st.Addr == x {
-						idx := "?"
-						if k, ok := x.Index.(*ssa.Const); ok {
-							idx = k.Value.ExactString()
-						}
-						uses = append(uses, use{rr, &allocStore{st, "[" + idx + "]"}})
-					} else {
-						uses = append(uses, use{rr, nil})
-					}
-				}
-			}
-		case ssa.CallInstruction:
-			escapes = true
-			uses = append(uses, use{r, nil})
-		case *ssa.DebugRef:
-		default:
-			uses = append(uses, use{r, nil})
 		}
 	}
+	walk(a, "", 0)
 	// program order within the allocation's block
 	posIn := func(in ssa.Instruction) int {
 		if in.Block() != a.Block() {
@@ -682,13 +698,10 @@ func (s *summarizer) allocStores(a *ssa.Alloc) (init, late []allocStore, escapes
 				if _, isCall := u.in.(ssa.CallInstruction); isCall {
 					initialising = false
 				}
-				if _, isLoad := u.in.(*ssa.UnOp); isLoad {
-					// loads do not end the initialisation phase unless a later store follows (handled by seenField)
-				}
 			}
 			continue
 		}
-		if initialising && u.in.Block() == a.Block() && !seenField[u.store.field] && s.loopOf[a.Block()] == s.loopOf[u.in.Block()] {
+		if initialising && u.in.Block() == a.Block() && !seenField[u.store.field] && !strings.Contains(u.store.field, "[?]") {
 			init = append(init, *u.store)
 			seenField[u.store.field] = true
 		} else {
@@ -725,10 +738,65 @@ func (s *summarizer) structFromStores(a *ssa.Alloc, init []allocStore, elem type
 		if st.field == "" {
 			continue
 		}
-		t.Fields = append(t.Fields, st.field)
-		t.Args = append(t.Args, s.term(st.st.Val))
+		structInsert(t, splitPath(st.field), s.term(st.st.Val))
 	}
 	return t
+}
+
+// splitPath: "a.b[0].c" -> ["a","b","[0]","c"]
+func splitPath(p string) []string {
+	var out []string
+	cur := ""
+	for i := 0; i < len(p); i++ {
+		switch p[i] {
+		case '.':
+			if cur != "" {
+				out = append(out, cur)
+				cur = ""
+			}
+		case '[':
+			if cur != "" {
+				out = append(out, cur)
+			}
+			cur = "["
+		case ']':
+			out = append(out, cur+"]")
+			cur = ""
+		default:
+			cur += string(p[i])
+		}
+	}
+	if cur != "" {
+		out = append(out, cur)
+	}
+	return out
+}
+
+func structInsert(t *Term, path []string, v *Term) {
+	if len(path) == 0 {
+		return
+	}
+	for i, f := range t.Fields {
+		if f == path[0] {
+			if len(path) == 1 {
+				t.Args[i] = v
+				return
+			}
+			if t.Args[i].Op != "struct" {
+				t.Args[i] = &Term{Op: "struct", Val: ""}
+			}
+			structInsert(t.Args[i], path[1:], v)
+			return
+		}
+	}
+	t.Fields = append(t.Fields, path[0])
+	if len(path) == 1 {
+		t.Args = append(t.Args, v)
+		return
+	}
+	sub := &Term{Op: "struct", Val: ""}
+	t.Args = append(t.Args, sub)
+	structInsert(sub, path[1:], v)
 }
 
 // loadTerm: *addr
@@ -952,7 +1020,7 @@ func (s *summarizer) edgePC(p, b *ssa.BasicBlock) *Term {
 func (s *summarizer) calleeName(fn *ssa.Function) string {
 	if fn.Blocks != nil && (s.p.inRepo(fn) || s.p.isSpec(fn)) {
 		k := funcKey(fn)
-		return strings.ReplaceAll(k, specPrefix, "")
+		return normKey(strings.ReplaceAll(k, specPrefix, ""))
 	}
 	return extPkgPath(fn) + "." + extName(fn)
 }
@@ -1056,18 +1124,15 @@ func (s *summarizer) shouldInline(g *ssa.Function) bool {
 			return false // recursion
 		}
 	}
+	if g.Parent() != nil || g.Synthetic != "" {
+		return false
+	}
 	switch {
 	case s.p.isSpec(g):
-		// reference helper whose repository counterpart is gone (inlined or renamed in the code)
-		if g.Parent() != nil || !strings.Contains(funcKey(g), specPrefix) {
-			return false
-		}
-		return s.p.Func(strings.Replace(funcKey(g), specPrefix, "", 1)) == nil
+		// reference helper whose repository counterpart is gone or changed its interface
+		return strings.Contains(funcKey(g), specPrefix) && !s.p.paired(g)
 	case s.p.inRepo(g):
-		if g.Parent() != nil {
-			return false
-		}
-		return !s.p.hasSpec(funcKey(g))
+		return !s.p.paired(g)
 	}
 	return false
 }
@@ -1269,13 +1334,18 @@ func (s *summarizer) backEdgePC(p *ssa.BasicBlock, l *loopInfo) *Term {
 // isInitStore: initialising store of a local (part of its struct/value term).
 func (s *summarizer) isInitStore(st *ssa.Store) bool {
 	var a *ssa.Alloc
-	switch x := st.Addr.(type) {
-	case *ssa.Alloc:
-		a = x
-	case *ssa.FieldAddr:
-		a, _ = x.X.(*ssa.Alloc)
-	case *ssa.IndexAddr:
-		a, _ = x.X.(*ssa.Alloc)
+	for v, depth := st.Addr, 0; v != nil && depth < 8; depth++ {
+		switch x := v.(type) {
+		case *ssa.Alloc:
+			a = x
+			v = nil
+		case *ssa.FieldAddr:
+			v = x.X
+		case *ssa.IndexAddr:
+			v = x.X
+		default:
+			v = nil
+		}
 	}
 	if a == nil {
 		return false
